@@ -776,14 +776,16 @@ impl Conv<&ReturnStatement> for ir::Statement {
         let dst = VarPath::new(get_return_str());
         let dst = VarPathSelect(dst, ir::VarSelect::default(), token);
 
-        if let Some(dst) = dst.to_assign_destination(context, false) {
+        if let Some(mut dst) = dst.to_assign_destination(context, false) {
             let width = dst.total_width(context);
-            let (_, expr) = eval_expr(
+            let (comptime, expr) = eval_expr(
                 context,
                 Some(dst.comptime.r#type.clone()),
                 &value.expression,
                 false,
             )?;
+            // The returned value carries its clock domain to the callers.
+            check_assign_clock_domain(context, &mut dst, &comptime, &token);
             Ok(ir::Statement::Assign(ir::AssignStatement {
                 dst: vec![dst],
                 width,
